@@ -301,6 +301,8 @@ def run(tier: str, seed: int) -> Report:
     # binding self-tests: (i) corrupted traces, (ii) mutated servers -- one TLC run
     n_real = len(corpus.traces)
     corrupted = corrupt_traces(corpus, verdicts)
+    if not corrupted and not rep.violations:
+        raise Machinery("binding self-test: no accepted exchange to corrupt")
     mut_traces: dict[str, list[dict[str, Any]]] = {}
     for name, (cls, _prefix) in mutant_servers().items():
         n0 = len(corpus.traces)
@@ -330,11 +332,18 @@ def run(tier: str, seed: int) -> Report:
 
 
 def corrupt_traces(corpus: E.Corpus, verdicts: dict[int, tuple[str, list[tuple[int, str]], int]]) -> list[tuple[str, dict[str, Any]]]:
-    t = next((t for t in corpus.traces if verdicts[t["id"]][0] == "ok" and
-              any(s["vk"] == "bytes" for s in t["steps"][:20])), None)
+    # an accepted prefix of a recorded trace (steps are judged one by one)
+    t = None
+    i = -1
+    for cand in corpus.traces:
+        bad = verdicts[cand["id"]][1]
+        upto = (min(j for j, _l in bad) - 1) if bad else len(cand["steps"])
+        i = next((j for j, s in enumerate(cand["steps"][:upto]) if s["vk"] == "bytes"), -1)
+        if i >= 0:
+            t = cand
+            break
     if t is None:
-        raise Machinery("binding self-test: no accepted trace to corrupt")
-    i = next(i for i, s in enumerate(t["steps"]) if s["vk"] == "bytes")
+        return []
     cs = []
     for k, upd in (("acc", {"a": "Mismatch"}), ("session", {"s": 0x7D}), ("alive", {"al": False}),
                    ("raised", {"x": "KeyError"}), ("echo", {"vb": [0x7F, (t["steps"][i]["q"][0] + 1) % 256, 0x11], "vn": 3}),
